@@ -20,6 +20,7 @@ import (
 	"github.com/nspcc-dev/neo-go/pkg/io"
 	"github.com/nspcc-dev/neo-go/pkg/network/capability"
 	"github.com/nspcc-dev/neo-go/pkg/network/payload"
+	"github.com/nspcc-dev/neo-go/pkg/smartcontract/callflag"
 	"github.com/nspcc-dev/neo-go/pkg/smartcontract/nef"
 	"github.com/nspcc-dev/neo-go/pkg/util"
 	"github.com/nspcc-dev/neo-go/pkg/vm/stackitem"
@@ -307,6 +308,8 @@ func genWireLimits(repo string) (string, error) {
 		}
 	}
 	def("nefMaxTokens", tokCap)
+	def("nefMagic", int64(nef.Magic))
+	def("callFlagAll", int64(callflag.All))
 
 	// in-memory element sizes of the slices the decoders make (bytes per slot)
 	def("slotSigner", int64(unsafe.Sizeof(transaction.Signer{})))
